@@ -679,6 +679,14 @@ def _foreign_labels(clsname, F, M):
     return out
 
 
+def _describe(G):
+    try:
+        return "a {} with {} vertices, number_of_edges() = {} and edges() = {}".format(
+            type(G).__name__, G.number_of_vertices(), G.number_of_edges(), [tuple(e) for e in G.edges()])
+    except Exception:   # noqa
+        return "a {}".format(type(G).__name__)
+
+
 def _obtain_foreign(clsname, F, labels):
     """Convert the foreign object of the case; -> (object, model, description) or (None, None, description) when the
     argument had to be refused for good.  Raises Violation."""
@@ -709,8 +717,9 @@ def _obtain_foreign(clsname, F, labels):
                 return None, None, head
             continue
         if refusal in ('class', 'content'):
-            raise Violation("{}: gave back {!r} instead of raising {} ({})".format(
-                head, G, 'ValueError' if refusal == 'content' else 'ValueError or TypeError', ', '.join(sorted(why))))
+            raise Violation("{}: gave back {} instead of raising {} ({})".format(
+                head, _describe(G), 'ValueError' if refusal == 'content' else 'ValueError or TypeError',
+                ', '.join(sorted(why))))
         if not isinstance(G, cls):
             raise Violation("{}: gave back a {}".format(head, type(G).__name__))
         first = None
@@ -1183,7 +1192,7 @@ def _foreign_history(draw, clsname, max_steps):
         for p, nd in enumerate(nodes):
             nd['b'] = COLOUR_SPELLINGS[(cols[p] // 2) % len(COLOUR_SPELLINGS)][cols[p] % 2]
         if bad_colour and k:
-            bad = BAD_COLOURS[flags % len(BAD_COLOURS)]
+            bad = BAD_COLOURS[(flags // 288) % len(BAD_COLOURS)]
             if bad == 'missing':
                 del nodes[cols[0] % k]['b']
             else:
